@@ -8,9 +8,9 @@ from run import Prop
 
 SEPS = "-_."
 # the character partition of DESIGN §7 C13: lower-alnum, '-', '_', '.', upper, newline, other
-CLASS_REPS = [list("az09m5"), ["-"], ["_"], ["."], list("AZQ"), ["\n"], [" ", "+", "é", "ſ", "İ", "K", "\x00", "١", "ı", "É", "/", "\r"]]
+CLASS_REPS = [list("az09m5"), ["-"], ["_"], ["."], list("AZQ"), ["\n"], [" ", "+", "é", "ſ", "İ", "\u212a", "\u212a", "K", "\x00", "١", "ı", "É", "/", "\r"]]
 # non-ASCII / odd characters for the random stream (U+03A3 is outside the model: context-dependent lower-casing)
-ODD = ["ſ", "İ", "ı", "K", "É", "é", "ß", "ǅ", "Ω", "Ａ", "١", "２", " ", "\n", "\r", "\x00", "\ud800", "+", "!", "/", " ", "\x85", "Ā", "Ⴀ", "Ꭰ", "ẞ"]
+ODD = ["ſ", "İ", "ı", "\u212a", "K", "É", "é", "ß", "ǅ", "Ω", "Ａ", "١", "２", " ", "\n", "\r", "\x00", "\ud800", "+", "!", "/", " ", "\x85", "Ā", "Ⴀ", "Ꭰ", "ẞ"]
 WORDS = ["a", "b", "z", "0", "9", "foo", "Foo", "BAR", "x1", "1x", "py", "A", "Z", "m", "aB"]
 
 
@@ -204,7 +204,9 @@ class C13(Prop):
             if a.startswith("word "):
                 yield (law, {"s": core.dec(a[5:])})
         # the shapes §8 row 2 suspects, first
-        for s in ["foo\n", "a--b", "ſ", "a\n", "a--a", "K9", "a-b", "A.b_c", "", "-", "a-", "-a"]:
+        for s in ["foo\n", "a--b", "ſ", "a\n", "a--a", "K9", "a-b", "A.b_c", "", "-", "a-", "-a",
+                  # non-ASCII code points that lower()/upper()/casefold() map to ASCII letters, in otherwise valid names
+                  "\u212a9", "a\u212a", "\u212a", "\u212aeras", "a.\u212a.b", "\u017fetuptools", "p\u0131p", "\u0130x", "x\u0130"]:
             for law in ("validate_iff_core_metadata_name", "normalized_iff_valid_fixed_point", "canon_is_fold"):
                 yield (law, {"s": s})
         ex = self._exhaustive(rng, 4)
